@@ -182,6 +182,10 @@ where
             }
             self._append_slice(&[ch])?;
         } else {
+            // A new label needs a length octet as well.
+            if len >= 253 {
+                return Err(PushError::LongName);
+            }
             self.head = Some(len);
             self._append_slice(&[0, ch])?;
         }
@@ -221,6 +225,9 @@ where
         if let Some(head) = self.head {
             if slice.len() > Label::MAX_LEN - (self.len() - head) {
                 return Err(PushError::LongLabel);
+            }
+            if self.len() + slice.len() > 254 {
+                return Err(PushError::LongName);
             }
         } else {
             if slice.len() > Label::MAX_LEN {
